@@ -79,13 +79,13 @@ func c14Huge(c *core.Case) {
 		c.Fail("fit-error", nil, "%v", err)
 		return
 	}
-	box, err := operated.GetNspatialIdsAroundVoxcels(line, hl, vl)
-	c.Calls(3)
-	if err != nil {
-		c.Fail("nlayer-error", nil, "%v", err)
+	c.Calls(2)
+	lineIDs, perr := parseAll(line)
+	if perr != nil {
+		c.Fail("line-malformed", nil, "line result contains a malformed ID: %v", perr)
 		return
 	}
-	want, _ := ref.SetOfExt(box)
+	want := wantStencil(lineIDs, stencilBox(hl, vl)) // reference model of the N-layer box
 	for _, s := range line {
 		want[s] = struct{}{}
 	}
@@ -313,13 +313,13 @@ func runC14(c *core.Case) {
 	matched := false
 	var detail []string
 	for l, from := range admissible {
-		box, e := operated.GetNspatialIdsAroundVoxcels(line, l.h, l.v)
-		c.Call()
-		if e != nil {
-			c.Fail("nlayer-error", nil, "GetNspatialIdsAroundVoxcels returned %v", e)
+		// the N-layer box of the line from the reference model (modular shifts), not from the library's own N-layer query
+		lineIDs, perr := parseAll(line)
+		if perr != nil {
+			c.Fail("line-malformed", nil, "line result contains a malformed ID: %v", perr)
 			return
 		}
-		want, _ := ref.SetOfExt(box)
+		want := wantStencil(lineIDs, stencilBox(l.h, l.v))
 		for s := range lineSet {
 			want[s] = struct{}{}
 		}
